@@ -42,22 +42,22 @@ int main() {
   CPathsD cbigline = CreateCPathsDFromPathsD(PathsD{ P({ 0, 5, just_over, 5, 10, 6 }) });
   CRectD ok_rect{ 2, 2, 8, 8 }, big_rect{ 2, 2, just_over, 8 };
 
-  expect_reported("exportInflatePathsD.range-unchecked", "InflatePathsD(2^61+4096, delta 2, p=0)", [&]() -> long {
+  expect_reported("exportD.range-unchecked", "InflatePathsD(2^61+4096, delta 2, p=0)", [&]() -> long {
     CPathsD r = InflatePathsD(cbig, 2.0, 0, 0, 0, 2.0, 0.0, false); return r ? (long)count(r) : -1; });
-  expect_reported("exportInflatePathD.range-unchecked", "InflatePathD(2^61+4096, delta 2, p=0)", [&]() -> long {
+  expect_reported("exportD.range-unchecked", "InflatePathD(2^61+4096, delta 2, p=0)", [&]() -> long {
     CPathsD r = InflatePathD(cpath_big, 2.0, 0, 0, 0, 2.0, 0.0, false); return r ? (long)count(r) : -1; });
-  expect_reported("exportRectClipD.range-unchecked", "RectClipD((2,2,8,8), 2^61+4096, p=0)", [&]() -> long {
+  expect_reported("exportD.range-unchecked", "RectClipD((2,2,8,8), 2^61+4096, p=0)", [&]() -> long {
     CPathsD r = RectClipD(ok_rect, cbig, 0); return r ? (long)count(r) : -1; });
-  expect_reported("exportRectClipLinesD.range-unchecked", "RectClipLinesD((2,2,8,8), 2^61+4096, p=0)", [&]() -> long {
+  expect_reported("exportD.range-unchecked", "RectClipLinesD((2,2,8,8), 2^61+4096, p=0)", [&]() -> long {
     CPathsD r = RectClipLinesD(ok_rect, cbigline, 0); return r ? (long)count(r) : -1; });
-  expect_reported("exportRectClipD.rect-range-unchecked", "RectClipD((2,2,2^61+4096,8), sq, p=0)", [&]() -> long {
+  expect_reported("exportD.rect-range-unchecked", "RectClipD((2,2,2^61+4096,8), sq, p=0)", [&]() -> long {
     CPathsD r = RectClipD(big_rect, csq, 0); return r ? (long)count(r) : -1; });
-  expect_reported("exportRectClipLinesD.rect-range-unchecked", "RectClipLinesD((2,2,2^61+4096,8), sq, p=0)", [&]() -> long {
+  expect_reported("exportD.rect-range-unchecked", "RectClipLinesD((2,2,2^61+4096,8), sq, p=0)", [&]() -> long {
     CPathsD r = RectClipLinesD(big_rect, csq, 0); return r ? (long)count(r) : -1; });
   expect_reported("exportBooleanOpD.range-nonempty-noexc", "BooleanOpD(Union, NonZero, 2^61+4096, cl, p=0)", [&]() -> long {
     CPathsD sol = nullptr, solo = nullptr;
     int rc = BooleanOpD(2, 1, cbig, nullptr, ccl, sol, solo, 0, true, false); return rc < 0 ? -1 : (long)count(sol); });
-  expect_reported("exportBooleanOp_PolyTreeD.range-nonempty-noexc", "BooleanOp_PolyTreeD(Union, .., 2^61+4096, cl)", [&]() -> long {
+  expect_reported("exportBooleanOpD.range-nonempty-noexc", "BooleanOp_PolyTreeD(Union, .., 2^61+4096, cl)", [&]() -> long {
     CPolyTreeD sol = nullptr; CPathsD solo = nullptr;
     int rc = BooleanOp_PolyTreeD(2, 1, cbig, nullptr, ccl, sol, solo, 0, true, false); return rc < 0 ? -1 : (sol ? (long)sol[1] : 0); });
   expect_reported("(control)", "InflatePathsD(sq, delta 2, p=12)", [&]() -> long {
